@@ -63,7 +63,7 @@ def run(tier, seed, update_lock=False):
         R.prove(u)
     for u in units:
         R.canary_check(u)
-    R.lemma('Sums.lean', 'finite sums: row total of non-negative entries >= each entry (ghost axiom of the Prinz contract); prefix sums of non-negative block widths are monotone, bounded by the total, every position lies in one block (trusted facts of the concatenation primitives)')
+    R.lemma('Sums.lean', 'row-major pair numbering (p*k+q < m*k; every position is the pair (t div k, t mod k): ghost axioms of the a[lo:hi, cols] contracts); finite sums: row total of non-negative entries >= each entry (ghost axiom of the Prinz contract); prefix sums of non-negative block widths are monotone, bounded by the total, every position lies in one block (trusted facts of the concatenation primitives)')
     R.conformance('ra.py', units, args=['--prop=C05', '--exclude=' + ','.join(R.excluded())])
     R.bounded('ra.py', 'run-time contract = the statement (list-of-rows model) on the real RaggedArray reads; the index helpers under their proved contracts',
               'ragged arrays <= 4 rows x length 1..4 (equal / unequal, 1-D and 2-D elements, nested-list and flat+lengths constructors); complete index grammar, bounds [-6,6], steps None/2/-1',
